@@ -5,6 +5,8 @@ import TinsModel.Fields.CertLemmas
 namespace Tins.Props.C15
 open Tins.Fields
 
+set_option maxRecDepth 100000   -- the table theorems are `decide`d over all rows of Spec.rows
+
 /-! ## 1. the generic bit-field lens (proved once, for every position, width, value and image) -/
 
 /-- GetPut: a representable value written to a field is read back -/
@@ -58,7 +60,7 @@ theorem layout_eq_spec : allCert = true := by decide
 /-- every `small_uint<n>` setter parameter has exactly the width of its field -/
 theorem small_params_match_spec : smallCert = true := by decide
 
-example : rows.length = 102 ∧ Gen.simple.length + Custom.table.length = 102 := by decide
+example : 100 < rows.length ∧ Gen.simple.length + Custom.table.length = rows.length := by decide
 
 /-! ## 3. every modelled accessor pair IS the specified lens — all rows, all values, all images -/
 
